@@ -75,7 +75,7 @@ class C19(PropBase):
         # the model-alphabet operations
         prog += [('addnode', 0, 50, 2)] + obs_ops(0, d)
         prog += [('nodes', 0, None)] + has_probes(0, ns, ts) + [('stream', 0), ('streamchk', 0)]
-        hi = max(ts + [6]) + 2
+        hi = 10      # the graph is cleared and refilled at small instants, whatever instants the history used
         prog += [('clear', 0, 'clear_edges')] + obs_ops(0, d) + [('add', 0, 1, 2, 3, 5)] + obs_ops(0, d)
         prog += [('has', 0, 1, 2, t) for t in range(1, hi)]        # a cleared graph must behave like a fresh one
         prog += [('clear', 0, 'clear')] + obs_ops(0, d) + [('add', 0, 1, 2, 2, None)]
